@@ -34,7 +34,8 @@ Count(s, x) == Cardinality({i \in DOMAIN s : s[i] = x})
 (* the properties, over: reach = Reach(...), loaded = sequence of trees in *)
 (* the order they were loaded/processed, usedTrees/usedData = result sets  *)
 (***************************************************************************)
-AtMostOnce(loaded)        == \A i, j \in DOMAIN loaded : i # j => loaded[i] # loaded[j]
+\* no element occurs twice (stated by counting: the records of wide traversals have ~10^4 entries)
+AtMostOnce(loaded)        == Cardinality(Range(loaded)) = Len(loaded)
 ExactlyReach(loaded, reach) == Range(loaded) = reach /\ AtMostOnce(loaded)
 UsedOK(usedTrees, usedData, reach, data, bad) == usedTrees = reach /\ usedData = DataOf(data, bad, reach)
 
